@@ -3,10 +3,10 @@ INIT Init
 NEXT Next
 CONSTANTS
   Types = {"U", "R", "D"}
-  Froms = {0, 1, 2, 3, 4, 5, 6}
+  Froms <- FromsThorough
   Untils = {0, 1, 2, 3, 4, 5, 6, 7, 8, 9}
   Times = {0, 1, 2, 3, 4, 5, 6, 7, 8, 9, 10, 11, 12}
-  Deltas = {2, 5, 7}
+  Deltas = {2, 5, 7, 1000000}
   Decoys = {0, 1, 2, 3}
 INVARIANT WindowEffect
 INVARIANT OnlyDelta
